@@ -20,6 +20,7 @@ type LruOpJ struct {
 }
 
 type LruCase struct {
+	Metrics int  `json:"metrics,omitempty"` // bit mask of configured counters: 1 hit, 2 miss, 4 get, 8 put; 0 = all
 	Max uint64   `json:"max"`
 	Ops []LruOpJ `json:"ops"`
 }
@@ -64,7 +65,25 @@ const nSizeClasses = 6
 
 func runLruCase(o *Oracle, c *LruCase, rep *Report) {
 	hit, miss, get, put := &counter{}, &counter{}, &counter{}, &counter{}
-	cache := updog.NewLRUCache(c.Max, updog.WithCacheMetrics(&updog.CacheMetrics{CacheHit: hit, CacheMiss: miss, GetCall: get, PutCall: put}))
+	// every subset of the four optional counters may be configured; the configured ones must count exactly
+	m := &updog.CacheMetrics{}
+	mask := c.Metrics
+	if mask == 0 {
+		mask = 15
+	}
+	if mask&1 != 0 {
+		m.CacheHit = hit
+	}
+	if mask&2 != 0 {
+		m.CacheMiss = miss
+	}
+	if mask&4 != 0 {
+		m.GetCall = get
+	}
+	if mask&8 != 0 {
+		m.PutCall = put
+	}
+	cache := updog.NewLRUCache(c.Max, updog.WithCacheMetrics(m))
 	ovh := updog.VerifLRUOverhead()
 	ids := map[*roaring.Bitmap]int{}
 	byID := map[int]*roaring.Bitmap{}
@@ -116,6 +135,24 @@ func runLruCase(o *Oracle, c *LruCase, rep *Report) {
 	trace = append(trace, fmt.Sprintf("stats %d %d %d %d", get.n, put.n, hit.n, miss.n))
 	got := strings.Join(trace, " ")
 	want := o.Ask(req.String())
+	if mask != 15 {
+		// counters that are not configured stay 0 on the implementation side: mask the model's numbers likewise
+		f := strings.Fields(want)
+		st := f[len(f)-4:]
+		if mask&4 == 0 {
+			st[0] = "0"
+		}
+		if mask&8 == 0 {
+			st[1] = "0"
+		}
+		if mask&1 == 0 {
+			st[2] = "0"
+		}
+		if mask&2 == 0 {
+			st[3] = "0"
+		}
+		want = strings.Join(f, " ")
+	}
 	fp := fmt.Sprintf("%d|%s", c.Max, req.String())
 	rep.Eval(fp, hit.n > 0 && strings.Count(want, ";;") < len(c.Ops))
 	if boundMsg != "" {
@@ -205,6 +242,9 @@ func runC07(rep *Report, r *Rng, tier string) {
 	}
 	for i := 0; i < m; i++ {
 		c := genLruCase(r, 1+r.Intn(maxLen))
+		if i%3 == 0 {
+			c.Metrics = 1 + r.Intn(15)
+		}
 		if i < 2 {
 			rep.Sample(c)
 		}
